@@ -230,18 +230,36 @@ impl Pol {
             // a completely empty policy is still a mapping
             lines.push("policies: []".to_string());
         }
-        if !self.children.is_empty() {
-            lines.push("policies:".to_string());
+        // The keys of a YAML mapping have no order: write them rotated by an amount that depends on the policy's shape, and
+        // the `policies:` key (with its block) first for some policies, last for the others.
+        if lines.len() > 1 {
+            let rot = (self.apply.len() * 7 + self.match_opts.len() * 3 + self.children.len()) % lines.len();
+            lines.rotate_left(rot);
         }
-        for (i, txt) in lines.iter().enumerate() {
-            if i == 0 {
+        let children_first = !self.children.is_empty() && (self.apply.len() + self.children.len() + self.addrs.as_ref().map(|a| a.len()).unwrap_or(0)) % 2 == 0;
+        let mut first = true;
+        let mut emit = |txt: &str, out: &mut String| {
+            if first {
                 out.push_str(&format!("{}- {}\n", &pad[..indent.saturating_sub(2)], txt));
+                first = false;
             } else {
                 out.push_str(&format!("{}{}\n", pad, txt));
             }
+        };
+        if children_first {
+            emit("policies:", out);
+            for c in &self.children {
+                c.yaml(indent + 4, out);
+            }
         }
-        for c in &self.children {
-            c.yaml(indent + 4, out);
+        for txt in &lines {
+            emit(txt, out);
+        }
+        if !children_first && !self.children.is_empty() {
+            emit("policies:", out);
+            for c in &self.children {
+                c.yaml(indent + 4, out);
+            }
         }
     }
 }
